@@ -38,6 +38,7 @@ Init(cfg) ==
      wire |-> [c |-> EmptyMap, s |-> EmptyMap],  \* DATA bytes written
      probe |-> [c |-> {}, s |-> {}],             \* streams with a usability probe outstanding
      lastCap |-> [c |-> EmptyMap, s |-> EmptyMap],
+     lastRes |-> [c |-> EmptyMap, s |-> EmptyMap],   \* last reserve_capacity(n) per stream
      censusOn |-> FALSE, censusSum |-> [c |-> 0, s |-> 0],
      \* error causes per endpoint and stream: set of <<kind, code>> ; code -2 = not comparable
      cause |-> [c |-> EmptyMap, s |-> EmptyMap],
@@ -76,7 +77,9 @@ Submit(a, e, l) ==
     THEN [a EXCEPT !.push = Put(a.push, t, [hdr |-> e.hdr, dlv |-> 0])]
     ELSE IF c = "send_data" /\ ok
     THEN [SetM(a, ep, t, [x EXCEPT !.dataSub = x.dataSub + e.n, !.eosSub = x.eosSub \/ e.eos])
-            EXCEPT !.acc[ep] = Put(a.acc[ep], e.sid, Get(a.acc[ep], e.sid, 0) + e.n)]
+            EXCEPT !.acc[ep] = Put(a.acc[ep], e.sid, Get(a.acc[ep], e.sid, 0) + e.n),
+                   \* data handed to send_data uses up the reservation made before
+                   !.lastRes[ep] = Put(a.lastRes[ep], e.sid, Max(0, Get(a.lastRes[ep], e.sid, 0) - e.n))]
     ELSE IF c = "send_trailers" /\ ok
     THEN SetM(a, ep, t, [x EXCEPT !.trl = e.hdr, !.trlSub = TRUE, !.eosSub = TRUE])
     ELSE IF c = "send_reset"
@@ -159,6 +162,7 @@ Capacity(a, e, l, ws) ==
          IN IF a.censusOn /\ e.v > 0 THEN [a2 EXCEPT !.censusSum[ep] = a.censusSum[ep] + e.v + u] ELSE a2
     ELSE IF c = "send_data" /\ e.res = "ok" /\ "probe" \in DOMAIN e
     THEN [a EXCEPT !.probe[ep] = a.probe[ep] \cup {s}]
+    ELSE IF c = "reserve" THEN [a EXCEPT !.lastRes[ep] = Put(a.lastRes[ep], s, e.n)]
     ELSE a
 
 CensusEnd(a, l, ws) ==
@@ -245,11 +249,13 @@ Pool(a, e, l, ws) ==
             ELSE LET w == ws[ep]
                      live == {s \in DOMAIN w.st : s # 0 /\ w.st[s].o = "open" /\ w.st[s].fin /\ w.st[s].rstOut = 0 /\ w.st[s].i # "rst" /\ w.st[s].want = ""}
                      idle(s) == Get(a.lastCap[ep], s, 0) = 0 /\ Unsent(a, w, ep, s) = 0
-                     starving == {s \in live : /\ Unsent(a, w, ep, s) > 0
+                     waitsCap(s) == \E j \in 1..Len(e.out) : e.out[j].ep = ep /\ e.out[j].sid = s /\ e.out[j].op = "poll_capacity"
+                     starving == {s \in live : /\ \/ Unsent(a, w, ep, s) > 0
+                                                   \/ (Get(a.lastRes[ep], s, 0) > 0 /\ Get(a.lastCap[ep], s, 0) = 0 /\ ~w.st[s].apiEos /\ ~w.st[s].sendDrop)
                                                 /\ SatAdd(w.pa.iws, w.st[s].sw) > 0 /\ w.cw > 0 /\ w.owed = <<>>
                                                 /\ \A t \in live \ {s} : idle(t)}
                  IN IF w.dead \/ w.ended \/ w.tainted \/ e.wblocked[ep] \/ a.panicked[ep] \/ live = {} THEN b
-                    ELSE IF \E s \in live : Unsent(a, w, ep, s) > 0
+                    ELSE IF \E s \in live : Unsent(a, w, ep, s) > 0 \/ Get(a.lastRes[ep], s, 0) > 0
                     THEN Check(b, "C16.pool", starving = {}, l, ep, IF starving = {} THEN 0 ELSE CHOOSE s \in starving : TRUE, starving)
                     ELSE b
     IN chk(chk(a, "c"), "s")
